@@ -403,6 +403,7 @@ MUTANTS = [
     M('launched-keeps-path', FC, "        if self.state == 'LAUNCHED':\n            self.path = []\n", "        if self.state == 'LAUNCHED':\n", ['R07.4']),
 ]
 TWINS = [
+    M('closed-failed-merged', FS, "        elif self.state == 'CLOSED':\n            if self.circuit:\n                self.circuit.streams.remove(self)\n            self.circuit = None\n            self.maybe_call_closing_deferred()\n            flags = self._create_flags(kw)\n            self._notify('stream_closed', self, **flags)\n\n        elif self.state == 'FAILED':\n            if self.circuit:\n                self.circuit.streams.remove(self)\n            self.circuit = None\n            self.maybe_call_closing_deferred()\n            # build lower-case version of all flags\n            flags = self._create_flags(kw)\n            self._notify('stream_failed', self, **flags)", "        elif self.state in ('CLOSED', 'FAILED'):\n            if self.circuit:\n                self.circuit.streams.remove(self)\n            self.circuit = None\n            self.maybe_call_closing_deferred()\n            flags = self._create_flags(kw)\n            if self.state == 'CLOSED':\n                self._notify('stream_closed', self, **flags)\n            else:\n                self._notify('stream_failed', self, **flags)"),
     M('is-not-none', FS, "        elif self.state == 'CLOSED':\n            if self.circuit:\n                self.circuit.streams.remove(self)", "        elif self.state == 'CLOSED':\n            if self.circuit is not None:\n                self.circuit.streams.remove(self)"),
     M('detached-unconditional-none', FS, "            if self.circuit:\n                self.circuit.streams.remove(self)\n                self.circuit = None\n\n            # FIXME", "            if self.circuit:\n                self.circuit.streams.remove(self)\n            self.circuit = None\n\n            # FIXME"),
 ]
